@@ -25,6 +25,35 @@ func init() {
 		}})
 }
 
+func init() {
+	// the same differential over the handshake workload: resumption, DialEarly with 0-RTT accepted or rejected, Retry, version
+	// negotiation, long certificate chains, fault schedules on the handshake datagrams (no injections: a forged packet would have
+	// to be crafted from the first pass's connection IDs)
+	KRegister(&KSim{Name: "nilspechs", Passes: 2, New: func() KScenario { return &HsScenario{} }, Run: runNilSpecHs,
+		Gen: func(seed uint64, tier string) KScenario {
+			sc := genHs(seed, tier).(*HsScenario)
+			sc.Cfg.Client = "plain"
+			if sc.Mode == "inject" {
+				sc.Mode, sc.Inject = "resume", nil
+				sc.Cfg.Allow0RTT, sc.VN = true, false
+				sc.Early = 500
+			}
+			return sc
+		}})
+}
+
+func runNilSpecHs(t *testing.T, ksc KScenario, res *KResult) {
+	outer := ksc.(*HsScenario)
+	var sc HsScenario
+	b, _ := json.Marshal(outer)
+	if err := json.Unmarshal(b, &sc); err != nil {
+		res.Fail("scenario copy failed", "%v", err)
+		return
+	}
+	sc.Cfg.Client = [2]string{"plain", "unil"}[res.Pass]
+	nilSpecDiff(res, func(sub *KResult) { runHs(t, &sc, sub) }, func() { outer.Net, outer.Faults = sc.Net, sc.Faults })
+}
+
 type nilSpecCapture struct {
 	lines   []string // protocol-level history
 	bytesH  uint64   // hash over the raw bytes of every datagram
@@ -41,6 +70,11 @@ func runNilSpec(t *testing.T, ksc KScenario, res *KResult) {
 		return
 	}
 	sc.Cfg.Client = [2]string{"plain", "unil"}[res.Pass]
+	nilSpecDiff(res, func(sub *KResult) { runTransfer(t, &sc, sub) }, func() { outer.Net, outer.Faults = sc.Net, sc.Faults })
+}
+
+// nilSpecDiff executes one pass (res.Pass: 0 = plain Transport, 1 = UTransport without a spec) and, in the second pass, compares.
+func nilSpecDiff(res *KResult, run func(sub *KResult), afterFirst func()) {
 	capt := &nilSpecCapture{}
 	wOnStop = func(w *World) {
 		var all []*DgramRec
@@ -58,7 +92,7 @@ func runNilSpec(t *testing.T, ksc KScenario, res *KResult) {
 	}
 	defer func() { wOnStop = nil }()
 	sub := &KResult{KeepLog: res.KeepLog}
-	runTransfer(t, &sc, sub)
+	run(sub)
 	wOnStop = nil
 	var pk []string
 	for k, v := range sub.Probes {
@@ -82,7 +116,7 @@ func runNilSpec(t *testing.T, ksc KScenario, res *KResult) {
 		}
 		res.Carry = map[string]any{"plain": capt}
 		// the replayable form of the scenario: the faults that fired, explicitly
-		outer.Net, outer.Faults = sc.Net, sc.Faults
+		afterFirst()
 		return
 	}
 	a := res.Carry["plain"].(*nilSpecCapture)
